@@ -44,7 +44,7 @@ PROPS = {
     claim="Proof of NumPy's shape law, source-index law and element law for transpose (default and compile-time axes), moveaxis and swapaxes (compile-time axes incl. negative) at ranks 1..4 for every extent and index, and the same laws for run-time axes (transpose with a run-time permutation, moveaxis with run-time ints) and for arrays whose shape is a bounded run-time-length static_vector (the library's run-time-loop branches); reshape (run-time target shape), flatten and expand_dims keep C order in closed form (source index = unravel(ravel(dst, dst_shape), src_shape)) with the requested / NumPy shape, ranks up to 3x3; shape laws of shape_reshape incl. one -1, expand_dims and atleast_nd at index level; shape_squeeze keeps exactly the non-1 extents in order for every pattern of single extents at ranks 1..4 (view::squeeze is reshape to that shape); flip_slices reverses exactly the requested axes (scalar, list incl. negative entries, None; ranks 1..4) - the element law of flip then rests on the slicing of C05, which is not decided; moveaxis with several axes: the permutation is NumPy's for EVERY pair of duplicate-free axis lists of length 2 (ranks 3, 4, entries non-negative or negative; length 3 at rank 4 in the thorough tier) - exhaustive, since the function depends only on rank and lists. (E1 view level, constant small shapes with symbolic element values: c03g_views) shape and every element of flip (None / one axis / negative axis / axis lists, flip twice), flipud/fliplr, squeeze, atleast_1d/2d/nd, reshape (ct and run-time target, one -1 in either position), flatten, transpose (default, run-time and ct permutations, permutation then inverse), moveaxis, swapaxes (negative axes) and expand_dims (one axis, negative, axis list) equal NumPy's definition written against the source array. The same view-level obligations are also decided on fixed-dimension arrays whose shape is a RUN-TIME value (std::array<size_t,R> shape pinned to the listed extents by ASSUME): the library's run-time branches (loops over len(shape), maybe-typed results that must have a value).",
     note=E1_NOTE,
     technique=E1_TECH,
-    e1=[dict(tu="c03_rearrange.cpp"), dict(tu="c03b_dynamic.cpp"), dict(tu="c03c_reshape.cpp"), dict(tu="c15_args.cpp"), dict(tu="c02_capacity.cpp"), dict(tu="c03d_squeeze.cpp"), dict(tu="c03e_flip.cpp"), dict(tu="c03f_moveaxis_multi.cpp"), dict(tu="c03g_views.cpp"), dict(tu="c03g_views_rt.cpp")],
+    e1=[dict(tu="c03_rearrange.cpp"), dict(tu="c03b_dynamic.cpp"), dict(tu="c03c_reshape.cpp"), dict(tu="c15_args.cpp"), dict(tu="c02_capacity.cpp"), dict(tu="c03d_squeeze.cpp"), dict(tu="c03e_flip.cpp"), dict(tu="c03f_moveaxis_multi.cpp"), dict(tu="c03g_views.cpp"), dict(tu="c03g_views_rt.cpp"), dict(tu="c02d_capacity2.cpp")],
     e2=[dict(rule="R-AXISNORM"), dict(rule="R-PARAMUSE"), dict(rule="R-CONSTBRANCH", anchors=True)],
     rule=E1_RULE + "; E2: one instance per comparison of a position with an axis-valued expression in the anchor files (R-AXISNORM)",
     explanation="expected shape and source index are written from NumPy's definitions in the driver; the element law is equality of the bits loaded through the view and through the source at the expected index.",
@@ -56,7 +56,7 @@ PROPS = {
     claim="Proof of shape law, source-index law and element law for tile (reps of equal and greater length), repeat along an axis (scalar repeats, incl. negative axis) and roll along an axis for EVERY shift magnitude and sign, ranks 1..3, every extent and index (compile-time and run-time axes); concatenate at index level: result shape (summed extent on the axis, failure exactly when another extent differs), and for every destination index which operand and which source index is read, run-time axis incl. negative; pad (shape = source + both widths; a coordinate maps to the source exactly outside the padding, view::pad reads the source element or the fill value); tril/triu (kept side exactly col-row <= k resp. >= k, identity index, 1-d source used as every row); eye (fill exactly on the k-th diagonal); expand (axis extent s+(s-1)*spacing; multiples of spacing+1 map to coordinate/(spacing+1), everything else is a fill position; run-time axis incl. negative); take along a run-time axis incl. negative (shape; source coordinate = listed entry, a negative entry counted from the end, inside the extent); diagonal for either sign of the offset (shape incl. diagonal length, both diagonal coordinates inside their extents, other coordinates in order); sliding_window (windowed axes shrink by w-1, window extents appended, source = position + offset; scalar window on a run-time axis incl. negative, and one window per axis); sibling side-consistency of paired locals in the anchor files (R-PAIR). The remaining operations of the property are not decided. where(c,x,y) on three differently shaped constant-shape operands has the broadcast shape and selects x or y by the broadcast condition at every index. (E1 view level, constant small shapes with symbolic element values: c04i_views, c04j_views) shape and every element of tile (short/long reps), repeat (axis, negative axis, no axis, per-element repeats incl. 0), roll (beyond-extent and negative shifts, negative axis, no axis, several axes), take (negative / repeated entries, negative axis), compress (constant condition), concatenate (axis, negative axis, operand order, no axis), stack / hstack / vstack / dstack / column_stack (matrices and vectors), split (sections and indices), sliding_window (all axes, one axis), diagonal (offsets of either sign, chosen and negative axes on rank 3), diagflat, tril / triu (k of either sign, batches), eye / identity / tri, full / zeros / ones (_like), arange on an integer grid, pad (per-side widths), resize (nearest neighbour) and expand (spacing, negative axis, several axes) equal the definition written against the source array. The same view-level obligations are also decided on fixed-dimension arrays whose shape is a RUN-TIME value (std::array<size_t,R> shape pinned to the listed extents by ASSUME): the library's run-time branches (loops over len(shape), maybe-typed results that must have a value).",
     note=E1_NOTE,
     technique=E1_TECH,
-    e1=[dict(tu="c04_select.cpp"), dict(tu="c03b_dynamic.cpp"), dict(tu="c04b_concat.cpp"), dict(tu="c15b_pad_matmul.cpp"), dict(tu="c02c_padview.cpp"), dict(tu="c04d_tri.cpp"), dict(tu="c04e_window.cpp"), dict(tu="c04c_take.cpp"), dict(tu="c04f_diagonal.cpp"), dict(tu="c04g_expand.cpp"), dict(tu="c04h_cumsum.cpp"), dict(tu="c07c_where.cpp"), dict(tu="c04i_views.cpp"), dict(tu="c04j_views.cpp"), dict(tu="c04i_views_rt.cpp"), dict(tu="c04j_views_rt.cpp"), dict(tu="c07c_where_rt.cpp"), dict(tu="c04k_resize_enum.cpp")],
+    e1=[dict(tu="c04_select.cpp"), dict(tu="c03b_dynamic.cpp"), dict(tu="c04b_concat.cpp"), dict(tu="c15b_pad_matmul.cpp"), dict(tu="c02c_padview.cpp"), dict(tu="c04d_tri.cpp"), dict(tu="c04e_window.cpp"), dict(tu="c04c_take.cpp"), dict(tu="c04f_diagonal.cpp"), dict(tu="c04g_expand.cpp"), dict(tu="c04h_cumsum.cpp"), dict(tu="c07c_where.cpp"), dict(tu="c04i_views.cpp"), dict(tu="c04j_views.cpp"), dict(tu="c04i_views_rt.cpp"), dict(tu="c04j_views_rt.cpp"), dict(tu="c07c_where_rt.cpp"), dict(tu="c04k_resize_enum.cpp"), dict(tu="c09b_bounded_values.cpp"), dict(tu="c02d_capacity2.cpp")],
     e2=[dict(rule="R-PAIR"), dict(rule="R-AXISNORM"), dict(rule="R-PARAMUSE"), dict(rule="R-CONSTBRANCH", anchors=True)],
     e3=[dict(group="C04")],
     rule=E1_RULE,
@@ -81,7 +81,7 @@ PROPS = {
     claim="Proof of the value/Nothing boundary of broadcast_shape (all rank pairs up to 3x3), of moveaxis with in-range versus out-of-range compile-time and run-time axes, of normalize_axis (scalar and arrays of 1..3 axes, every ndim <= 64) with NumPy's normalised value, and of shape_reshape (element-count mismatch, zero extent, negative extent, two -1, one -1 with/without divisibility, inferred extent = numel / product of the others), of shape_pad (value exactly when the width has two entries per axis) and index::pad (Nothing exactly for coordinates in the padding), and of shape_matmul (Nothing whenever the contraction lengths differ, every rank pair up to 4x4; value with NumPy's shape for operands of rank <= 2); plus, over ~6000 instantiated functions of the maybe-lifting layer (index, view, eval, kernel helper, isequal/isclose), every dereference of a maybe-typed expression is dominated by the true edge of a truth test on that expression, and every integer division in index/ and view/ has a validated or role-justified divisor (the reshape divisor is tied to the zero-extent validation). The value/Nothing boundary of the remaining operations is not decided. (E1 c15c_invalid_views, run-time shape kind) at the view level: reshape (element count, two -1, non-dividing -1, zero extent), incompatible broadcasts in ufuncs / where / broadcast_to, a pad width list of the wrong length yield Nothing; transpose with a repeated axis and concatenate / stack with mismatching operands are accepted by the unchanged tree (known findings F29, F30).",
     note=E1_NOTE + " " + E2_NOTE,
     technique=E1_TECH + " + CFG typestate/dominance rules (test-before-dereference, zero-guarded division) on instantiations",
-    e1=[dict(tu="c06_broadcast.cpp"), dict(tu="c03_rearrange.cpp"), dict(tu="c03b_dynamic.cpp"), dict(tu="c15_args.cpp"), dict(tu="c06b_broadcast_to.cpp"), dict(tu="c04b_concat.cpp"), dict(tu="c15b_pad_matmul.cpp"), dict(tu="c03f_moveaxis_multi.cpp"), dict(tu="c15c_invalid_views.cpp"), dict(tu="c06e_assoc_enum.cpp", flags=["-DC06E_RA=1"]), dict(tu="c06e_assoc_enum.cpp", flags=["-DC06E_RA=2"])],
+    e1=[dict(tu="c06_broadcast.cpp"), dict(tu="c03_rearrange.cpp"), dict(tu="c03b_dynamic.cpp"), dict(tu="c15_args.cpp"), dict(tu="c06b_broadcast_to.cpp"), dict(tu="c04b_concat.cpp"), dict(tu="c15b_pad_matmul.cpp"), dict(tu="c03f_moveaxis_multi.cpp"), dict(tu="c15c_invalid_views.cpp"), dict(tu="c06e_assoc_enum.cpp", flags=["-DC06E_RA=1"]), dict(tu="c06e_assoc_enum.cpp", flags=["-DC06E_RA=2"]), dict(tu="c09b_bounded_values.cpp")],
     e2=[dict(rule="R-MAYBE-DIV"), dict(rule="R-STICKYFAIL")],
     rule=E1_RULE + "; E2: one instance per dereference of a maybe-typed expression / per integer division site in the instantiated lifting functions (drivers/maybe_inst.cpp)",
     explanation="value exactly when NumPy accepts, Nothing exactly when NumPy raises, for the listed operations; an empty optional is never dereferenced = every dereference is dominated by a truth test of the same expression (typestate rule on the CFG); no division by an unvalidated user-derived divisor.",
@@ -201,7 +201,7 @@ PROPS["C09"] = dict(
     claim="In each of the 41 index resolve_optype specialisations with a compile-time branch, that branch is defined as the paired run-time function applied to to_value_v of the specialisation's own parameters in parameter order, and every ct<>/clipped<> constant it builds is an unmodified element of that call's result - so the value computed at compile time is the value the run-time code computes, by construction. For shape_squeeze - whose clipped-tuple, fixed-array and run-time-length branches are three separate pieces of code - E1 additionally proves that all of them (std::array, utl::array, bounded static_vector, tuple of clipped integers) return the same, NumPy, result for every pattern of single extents at ranks 1..4. The 15-kind cast matrix (constant / fixed / bounded / dynamic / clipped shape x fixed / bounded / dynamic buffer) is checked by 15 type-level witnesses: the result of cast(a, kind) has exactly the shape knowledge and buffer kind its tag names, element type kept. Container-kind independence of the addressing functions (C01 obligations: std::array, utl::array, tuple, bounded run-time-length static_vector), of broadcast_shape (C06 obligations: std::array, utl::array, tuples incl. constants, mixed), of the run-time rearranging views (C03: fixed vs bounded-dimension arrays) and of isequal (C18: fixed, bounded, heap index arrays) is decided by counting those multi-kind obligations here as well: every kind is proved equal to ONE oracle text, hence the kinds agree with each other. STL vs non-STL builds and compiler independence are not decided.",
     note=E2_NOTE + " " + E1_NOTE,
     technique="static: custom libTooling extractor + by-construction rule on type-level branches (argument order, unmodified result); " + E1_TECH + " for branch agreement of shape_squeeze",
-    e1=[dict(tu="c03d_squeeze.cpp"), dict(tu="c06_broadcast.cpp", count_as="C06"), dict(tu="c01_index.cpp", count_as="C01"), dict(tu="c01b_roundtrip_enum.cpp", count_as="C01"), dict(tu="c03b_dynamic.cpp", count_as="C03"), dict(tu="c18_isequal.cpp", count_as="C18"), dict(tu="c02d_capacity2.cpp")],
+    e1=[dict(tu="c03d_squeeze.cpp"), dict(tu="c06_broadcast.cpp", count_as="C06"), dict(tu="c01_index.cpp", count_as="C01"), dict(tu="c01b_roundtrip_enum.cpp", count_as="C01"), dict(tu="c03b_dynamic.cpp", count_as="C03"), dict(tu="c18_isequal.cpp", count_as="C18"), dict(tu="c02d_capacity2.cpp"), dict(tu="c09b_bounded_values.cpp")],
     e3=[dict(group="C09")],
     e2=[dict(rule="R-CONSTBRANCH"), dict(rule="R-STICKYFAIL")],
     rule=E1_RULE + "; E2: one instance per resolve_optype<void, index::TAG_t, ...> specialisation that builds constants; distinct by (file, specialisation arguments)",
@@ -229,7 +229,7 @@ PROPS["C08"] = dict(
     claim="Partial: (E1, proof for every extent and result index, ranks 2..3, one reduction axis given at compile or run time incl. negative, keepdims on/off) index::reduction_slices designates for result index r exactly [0, extent) on the reduced axis and [r_k, r_k+1) on every other axis, and remove_dims yields NumPy's result shape; (E1, element values symbolic, constant shapes (2,3) (3,2) (3,4) (4,3) (1,3) (3,1), rank-3 shapes (2,3,2) (2,2,3) (3,2,2)) the element of a reduction is the left fold, accumulator first, in increasing index order over exactly the reduction slice - shown with subtract, which is neither commutative nor associative -, with an initial value the fold starts from it, axis None folds the C-order flattening, and accumulate yields the prefix folds; (E2) sum/prod/cumsum/cumprod are the add/multiply reduction resp. accumulation with operands in order, the reduce_/accumulate_/outer_ overload families hand every parameter on, no reduction-composing view drops a parameter, the accumulate axis is normalised (c08c_reduce_views, constant and run-time shapes, symbolic integer elements) sum over one axis (positive, negative, compile-time), several axes (run-time list, negative entries, compile-time tuple), keepdims (one axis, several axes, all axes), initial value, all axes; prod, amax, amin (axis, all axes, initial), reduce_subtract (order, initial first, keepdims), reduce_maximum over several axes; cumsum, cumprod, accumulate_subtract: NumPy's shape and the fold of exactly the matching source elements at every index.",
     note=E1_NOTE + " " + E2_NOTE + " Assumes that a (start, stop) slice selects the elements start..stop-1 in order (C05, not decided) and that flatten keeps C order (proved under C03).",
     technique=E1_TECH + " + structural fold-order rule over the reduction views (custom libTooling extractor)",
-    e1=[dict(tu="c08_reduce.cpp"), dict(tu="c08b_fold.cpp"), dict(tu="c08c_reduce_views.cpp"), dict(tu="c08c_reduce_views_rt.cpp")],
+    e1=[dict(tu="c08_reduce.cpp"), dict(tu="c08b_fold.cpp"), dict(tu="c08c_reduce_views.cpp"), dict(tu="c08c_reduce_views_rt.cpp"), dict(tu="c02d_capacity2.cpp")],
     e2=[dict(rule="R-FOLD"), dict(rule="R-AXISNORM"), dict(rule="R-UFWD.reduce"), dict(rule="R-PARAMUSE")],
     rule=E1_RULE + "; E2: one instance per sum/prod/cumsum/cumprod overload, per reduce_/accumulate_/outer_ overload, per parameter of a reduction-composing view",
     explanation="Which elements enter a fold is an index-level fact (the slices), decided for all values; the order and accumulator position are structural facts of the fold loop.",
